@@ -113,7 +113,7 @@ func unpackZip(
 		if err := filters.ApplyUnpackFilter(filt, &filteredFmeta); err != nil {
 			return api.WareID{}, api.WareID{}, err
 		}
-		if fmeta.Type == fs.Type_Invalid {
+		if filteredFmeta.Type == fs.Type_Invalid {
 			// skip placing that file and continue processing...
 			//  but *do* still record it in the prefilter bucket for hashing.
 			//  (n.b. currently only non-files are ever ejected like this.)
